@@ -1322,3 +1322,116 @@ class LiveSecondStep:
                 for sig, detail in mon(ctx2, res):
                     yield (f'after-{kind}>{sig}', f'on the live object that just merged {_case_str(ctx.case)}: {detail}')
                     return
+
+
+class LiveThirdStep:
+    """Runs the wrapped monitors on the THIRD message of three-message histories executed on one live
+    object: state s --c1--> live --c2--> live --c3--> checked.  c1: up to `first_per_kind` changing
+    messages per class and state (the transitions the explorer executes anyway); c2: up to
+    `second_per_kind` changing messages per class; c3: `third_per_kind` messages per class, spread evenly
+    over the menu of the state reached (None = the whole menu).  Covers what needs two earlier merges on
+    the same object to show: a cache filled by the first message and made stale by the second."""
+
+    def __init__(self, inner, second_harness, third_harness, first_per_kind=1, second_per_kind=1, third_per_kind=4,
+                 slices=None):
+        # slices: {canonical state text: (i, n)} - in that state only first messages of the classes whose index in
+        # spec.ALL_KINDS is i modulo n start a history (spreads the work of few initial shapes over more states,
+        # which is the unit the explorer distributes over its workers)
+        self.slices = slices
+        self.inner = inner
+        self.second = second_harness
+        self.third = third_harness
+        self.first_per_kind = first_per_kind
+        self.second_per_kind = second_per_kind
+        self.third_per_kind = third_per_kind
+        self._count = Counter()
+        self.touch_before = any(getattr(m, 'touch_before', False) for m in inner)
+
+    def _spread(self, cases):
+        if self.third_per_kind is None:
+            return cases
+        by = {}
+        for c in cases:
+            by.setdefault(c['kind'], []).append(c)
+        out = []
+        for k, cs in by.items():
+            n = self.third_per_kind
+            if len(cs) <= n:
+                out.extend(cs)
+            else:
+                idx = sorted({round(i * (len(cs) - 1) / (n - 1)) for i in range(n)}) if n > 1 else [0]
+                out.extend(cs[i] for i in idx)
+        return out
+
+    def __call__(self, ctx, res):
+        from . import target, tree
+        from .explore import Ctx
+        obs = ctx.obs
+        kind = ctx.case['kind']
+        if obs.exc is not None or obs.after is None or not ctx.changed:
+            return
+        if self.slices is not None:
+            from . import spec
+            sl = self.slices.get(ctx.before)
+            if sl is not None and kind in spec.ALL_KINDS and list(spec.ALL_KINDS).index(kind) % sl[1] != sl[0]:
+                return
+        key = (hash(ctx.before), kind)
+        if self._count[key] >= self.first_per_kind:
+            return
+        self._count[key] += 1
+        av = ctx.after_view
+        if av is None or av.base is None:
+            return
+        ns = ctx.ns
+
+        def replay(texts):
+            live, _ = target.parse(ns, ctx.before)
+            outs = []
+            for t in texts:
+                m, _e = target.parse(ns, t)
+                if m is None:
+                    return live, outs, None
+                if self.touch_before:
+                    target.touch(live)
+                outs.append(target.step_live(ns, live, m))
+            return live, outs, m
+
+        taken = Counter()
+        for c2 in self.second.menu(av, _NullRes()):
+            k2 = c2['kind']
+            if taken[k2] >= self.second_per_kind:
+                continue
+            m2 = self.second.render(c2, av)
+            live, outs, _m = replay([ctx.msg, m2])
+            if len(outs) < 2:
+                continue
+            if outs[0].after != obs.after:
+                yield (f'after-{kind}>nondeterministic', f'{_case_str(ctx.case)}: re-execution gave a different result')
+                return
+            o2 = outs[1]
+            if o2.exc is not None or o2.after is None or o2.after == o2.before:
+                continue
+            taken[k2] += 1
+            try:
+                av2 = tree.RoView(o2.after)
+            except Exception:  # noqa
+                continue
+            if av2.base is None:
+                continue
+            for c3 in self._spread(list(self.third.menu(av2, _NullRes()))):
+                m3 = self.third.render(c3, av2)
+                live, outs, mobj3 = replay([ctx.msg, m2, m3])
+                if len(outs) < 3:
+                    continue
+                if outs[1].after != o2.after:
+                    yield (f'after-{kind}+{k2}>nondeterministic', 're-execution of a two-message history gave a different result')
+                    return
+                o3 = outs[2]
+                ctx3 = Ctx(ns, self.third, o2.after, av2, c3, m3, o3)
+                ctx3.ro_obj, ctx3.msg_obj = live, mobj3
+                res.extra['live_third_steps'] += 1
+                for mon in self.inner:
+                    for sig, detail in mon(ctx3, res):
+                        yield (f'after-{kind}+{k2}>{sig}',
+                               f'on the live object that just merged {_case_str(ctx.case)} and then {_case_str(c2)}: {detail}')
+                        return
